@@ -197,6 +197,20 @@ func runC07(em *vEmitter, r *vRng) {
 		add(e.text+":", "text-trailing-colon")
 		add(strings.Replace(e.text, ":", "\r\n:", 1), "text-newline-inside")
 	}
+	// the same decoded bytes with the field boundary somewhere else: nonce||ciphertext of a valid token cut
+	// at every other offset and encoded as two fields again - a different (nonce, ciphertext) pair
+	for _, e := range valid {
+		whole := append(append([]byte{}, e.nonce...), e.ct...)
+		for cut := 0; cut <= len(whole); cut++ {
+			if cut == len(e.nonce) {
+				continue
+			}
+			if !thorough && cut > 16 && cut < len(whole)-4 && cut%5 != 0 {
+				continue
+			}
+			add(base64.URLEncoding.EncodeToString(whole[:cut])+":"+base64.URLEncoding.EncodeToString(whole[cut:]), "boundary-moved")
+		}
+	}
 	// all nonce / ciphertext splices between valid tokens (incl. the other instance)
 	all := append(append([]c07Entry{}, valid...), other...)
 	for i, a := range all {
